@@ -10,8 +10,19 @@ replay, (5) write evidence/<id>.json.
 import os, sys, re, json, time, subprocess, hashlib, random, fcntl, shutil, glob, traceback
 
 VERIF = os.path.dirname(os.path.dirname(os.path.abspath(__file__)))
+REPO = os.path.realpath(os.environ.get('VERIF_REPO', '/repo'))
 COQ = os.path.join(VERIF, 'coq')
-REPO = os.environ.get('VERIF_REPO', '/repo')
+if REPO != '/repo':
+    # a check run against a scratch copy of the repository (mutant self-tests) must not disturb the
+    # shared build tree: regenerated Gen/*.v would differ.  Work in a private copy, removed at exit.
+    import atexit
+    _priv = os.environ.get('VERIF_COQ') or '/tmp/verif_coq_%d' % os.getpid()
+    if not os.path.isdir(_priv):
+        subprocess.run(['rsync', '-a', '--exclude', 'Cases/*', '--exclude', 'Wip', '--exclude', '.lock',
+                        os.path.join(VERIF, 'coq') + '/', _priv + '/'], check=True)
+        if not os.environ.get('VERIF_COQ'):
+            atexit.register(lambda: shutil.rmtree(_priv, ignore_errors=True))
+    COQ = _priv
 PY = '/venv/bin/python'
 NPROC = int(os.environ.get('VERIF_JOBS', '16'))
 GUARD = 'FABRIC_FIM_VERIF'
@@ -295,10 +306,19 @@ def run_cases(pid, stream, header, case_terms, check_fn, case_type, shard=400, t
 
 def load_known():
     p = os.path.join(VERIF, 'known_findings.json')
-    if not os.path.exists(p):
-        return {'findings': [], 'fixed': []}
-    with open(p) as f:
-        return json.load(f)
+    out = {'findings': [], 'fixed': []}
+    if os.path.exists(p):
+        with open(p) as f:
+            d = json.load(f)
+        out['findings'] += d.get('findings', [])
+        out['fixed'] += d.get('fixed', [])
+    # per-property fragments used while a check is being developed; merged into the single file on integration
+    for q in sorted(glob.glob(os.path.join(VERIF, 'known_findings.d', '*.json'))):
+        with open(q) as f:
+            d = json.load(f)
+        out['findings'] += d.get('findings', [])
+        out['fixed'] += d.get('fixed', [])
+    return out
 
 
 def known_for(pid):
@@ -319,6 +339,9 @@ def write_evidence(pid, tier, seed, coverage, assumptions, wall_s, violations, l
     ev = {'property_id': pid, 'tier': tier, 'seed': seed, 'level': level, 'coverage': coverage,
           'assumptions': assumptions, 'wall_s': round(wall_s, 2), 'violations': violations}
     path = os.path.join(VERIF, 'evidence', pid + '.json')
+    if REPO != '/repo':     # scratch-copy runs (mutant self-tests) never overwrite the evidence of the real tree
+        os.makedirs(os.path.join(VERIF, 'replays', '_scratch_evidence'), exist_ok=True)
+        path = os.path.join(VERIF, 'replays', '_scratch_evidence', pid + '.json')
     tmp = path + '.tmp'
     with open(tmp, 'w') as f:
         json.dump(ev, f, indent=1, default=repr)
